@@ -1,6 +1,6 @@
 (** C14 - Manifests, CRLs and signed objects are refreshed in time with rising numbers.
     Only statements; proofs in ca/CaObjProofs.v and ca/CaDueProofs.v. *)
-From KV Require Import base.Tac ca.Ca ca.CaProofs ca.CaObjProofs ca.CaCheck ca.CaDueProofs.
+From KV Require Import base.Tac ca.Ca ca.CaProofs ca.CaObjProofs ca.CaCheck ca.CaDueProofs ca.CaOracleProofs.
 Open Scope N_scope.
 
 (** A class is re-issued iff forced or one of its key sets (current, staging, old) is within the margin
@@ -54,6 +54,20 @@ Theorem C14_maintenance_run_meets_due_oracle : forall now margin next force objs
   due_ok_objs now margin force objs (re_issue (mkEnv now margin next) force objs) = true.
 Proof. exact reissue_meets_due_ok. Qed.
 
+(** The number oracle evaluated on the implementation's object stores (per key set: the number never falls,
+    grows by at most one per command, and grows whenever content or revocations changed; new sets start at 1)
+    is what every run of the model satisfies, for every store and command list with fresh keys. *)
+Theorem C14_model_run_meets_number_oracle : forall env cn s o ms s' o',
+  Fresh o ms -> run_cmds env cn s o ms = Some (s', o') -> numbers_ok (N.of_nat (length ms)) o o' = true.
+Proof. exact model_run_meets_numbers_ok. Qed.
+
+Theorem C14_agrees_meets_number_oracle : forall c,
+  agrees c = true -> hyps_ok c = true ->
+  numbers_ok (N.of_nat (length (c_cmds c))) (c_pre_objs c) (c_post_objs c) = true.
+Proof. exact agrees_meets_c14_numbers_checked. Qed.
+
+Print Assumptions C14_model_run_meets_number_oracle.
+Print Assumptions C14_agrees_meets_number_oracle.
 Print Assumptions C14_maintenance_run_meets_due_oracle.
 Print Assumptions C14_renew_due_iff.
 Print Assumptions C14_nothing_expiring_nothing_renewed.
